@@ -43,7 +43,7 @@ def apply_sar_adc_with_noise(
     """
     data_digitized_2d = np.zeros((num_rows, num_cols))
 
-    signal_normalized_2d = signal_2d.copy()
+    signal_normalized_2d = np.array(signal_2d, dtype=float)
 
     # Set the reference voltage of the ADC to half the max
     ref_2d = np.full(shape=(num_rows, num_cols), fill_value=max_volt / 2.0)
